@@ -13,7 +13,7 @@ from .symnum import explore, mk, real, term, var
 
 
 class Conv:
-    __slots__ = ("outcome", "c", "d", "unit_ok", "msg", "paths", "queries", "solver_s", "kind_ok")
+    __slots__ = ("outcome", "c", "d", "unit_ok", "msg", "paths", "queries", "solver_s", "kind_ok", "fork_models")
 
     def __init__(self) -> None:
         self.outcome = "?"
@@ -25,6 +25,7 @@ class Conv:
         self.paths = 0
         self.queries = 0
         self.solver_s = 0.0
+        self.fork_models: list = []
 
     def as_tuple(self) -> Tuple:
         return (self.outcome, self.c, self.d, self.unit_ok)
@@ -60,6 +61,14 @@ def convert(src: Any, dst: Any, kind: str = "float", P: Optional[symnum.Prover] 
         # a conversion whose control flow depends on the magnitude
         out.outcome = "forks"
         out.msg = "; ".join(f"{p.outcome}:{[str(c) for c in p.pc]}" for p in ex.paths)[:400]
+        # one magnitude per path (a model of its condition), for replays that must take that path
+        PP = P or symnum.Prover(10000)
+        for p in ex.paths:
+            for extra in ([real(mv) != 0], []):
+                mm = PP.shaped_model([p.cond, *extra], [mv])
+                if mm is not None:
+                    out.fork_models.append(next(iter(mm.values())))
+                    break
         return out
     p = ex.paths[0]
     if p.exc is not None:
